@@ -249,6 +249,9 @@ func respBytes(cls string, id uint64) []byte {
 	case "r1":
 		bz, _ := avstypes.MarshalTaskResponse(avstypes.TaskResponse{TaskID: id, NumberSum: big.NewInt(1)})
 		return bz
+	case "r2": // a DIFFERENT response that carries the same task id
+		bz, _ := avstypes.MarshalTaskResponse(avstypes.TaskResponse{TaskID: id, NumberSum: big.NewInt(2)})
+		return bz
 	case "rw": // well-formed response that carries ANOTHER task id
 		bz, _ := avstypes.MarshalTaskResponse(avstypes.TaskResponse{TaskID: id + 7, NumberSum: big.NewInt(1)})
 		return bz
@@ -277,6 +280,8 @@ func (d *avsDriver) sigBytes(cls, o string, id uint64) []byte {
 		return sign(o, "r1")
 	case "g2":
 		return sign(o, "rw")
+	case "g3":
+		return sign(o, "r2")
 	case "x1":
 		return sign(d.otherOp(o), "r1")
 	case "junk":
@@ -355,7 +360,14 @@ func (d *avsDriver) call(e BEvent) error {
 		return err
 	case "Challenge":
 		id := uint64(e.i64("id"))
-		rh, _ := avstypes.GetTaskResponseDigestEncodeByAbi(avstypes.TaskResponse{TaskID: id, NumberSum: big.NewInt(1)})
+		// class "good" = the ABI digest of the response that is stored for (operator, task) (of r1 when none is stored)
+		tr := avstypes.TaskResponse{TaskID: id, NumberSum: big.NewInt(1)}
+		if stored, err := k.AVSManagerKeeper.GetTaskResultInfo(ctx, d.acct[e.str("o")], d.tAddr[e.str("t")].String(), id); err == nil {
+			if parsed, err := avstypes.UnmarshalTaskResponse(stored.TaskResponse); err == nil && parsed.NumberSum != nil {
+				tr = parsed
+			}
+		}
+		rh, _ := avstypes.GetTaskResponseDigestEncodeByAbi(tr)
 		rhash := rh[:]
 		if e.str("rhash") != "good" {
 			rhash = h256("another response hash")
@@ -425,7 +437,7 @@ func (d *avsDriver) sigToken(bz []byte, o string, id uint64) string {
 		return "nil"
 	}
 	if _, known := d.bls[o]; known {
-		for _, c := range []string{"g1", "g2", "x1", "junk"} {
+		for _, c := range []string{"g1", "g2", "g3", "x1", "junk"} {
 			if bytes.Equal(bz, d.sigBytes(c, o, id)) {
 				return c
 			}
@@ -437,7 +449,7 @@ func respToken(bz []byte, id uint64) string {
 	if len(bz) == 0 {
 		return "nil"
 	}
-	for _, c := range []string{"r1", "rw", "rj"} {
+	for _, c := range []string{"r1", "r2", "rw", "rj"} {
 		if bytes.Equal(bz, respBytes(c, id)) {
 			return c
 		}
@@ -581,8 +593,26 @@ func (d *avsDriver) project() map[string]interface{} {
 				rh = "h"
 			}
 		}
+		// state predicate of C20 on the STORED record, recomputed here with the real blst code: does the stored
+		// signature verify over keccak(stored response) under the operator's REGISTERED key, and does the stored
+		// response carry the task id (both false for a record without response, i.e. phase one only)
+		ver, idok := false, false
+		if len(r.TaskResponse) > 0 {
+			if pk, err := k.AVSManagerKeeper.GetOperatorPubKey(ctx, r.OperatorAddress); err == nil {
+				if pub, err := blst.PublicKeyFromBytes(pk.PubKey); err == nil && pub != nil {
+					func() {
+						defer func() { _ = recover() }()
+						okv, err := blst.VerifySignature(r.BlsSignature, crypto.Keccak256Hash(r.TaskResponse), pub)
+						ver = okv && err == nil
+					}()
+				}
+			}
+			if parsed, err := avstypes.UnmarshalTaskResponse(r.TaskResponse); err == nil {
+				idok = parsed.TaskID == r.TaskId
+			}
+		}
 		res = append(res, map[string]interface{}{"o": o, "t": d.taskM(r.TaskContractAddress), "id": r.TaskId, "stage": r.Stage,
-			"sig": d.sigToken(r.BlsSignature, o, r.TaskId), "resp": respToken(r.TaskResponse, r.TaskId), "rhash": rh})
+			"sig": d.sigToken(r.BlsSignature, o, r.TaskId), "resp": respToken(r.TaskResponse, r.TaskId), "rhash": rh, "ver": ver, "idok": idok})
 		return false
 	})
 	st["res"] = res
